@@ -38,6 +38,8 @@ pub struct Workspace {
     rust: Vec<RustBp>,
     composites: Vec<Composite>,
     others: usize,
+    /// the last composite's directory is a symbolic link to a directory outside the workspace
+    linked: bool,
 }
 
 #[derive(Clone, Debug, PartialEq)]
@@ -53,6 +55,8 @@ pub enum Seed {
     Foreign,
     Truncated(u16),
     StaleRevision,
+    /// a complete earlier output whose descriptors are current but whose binaries are old, plus a leftover file
+    StaleBinary,
 }
 
 #[derive(Clone, Debug)]
@@ -64,10 +68,11 @@ pub struct Invocation {
 }
 
 fn workspace_strategy() -> impl Strategy<Value = Workspace> {
-    (1usize..4, proptest::collection::vec(0usize..3, 4), prop_oneof![1 => Just(0usize), 5 => 1usize..4], proptest::collection::vec(proptest::collection::vec((any::<u16>(), 0u8..4), 0..5), 3), 0usize..3).prop_map(|(nrust, extra, ncomp, depspec, others)| {
+    (1usize..4, proptest::collection::vec(0usize..3, 4), prop_oneof![1 => Just(0usize), 5 => 1usize..4], proptest::collection::vec(proptest::collection::vec((any::<u16>(), 0u8..4), 0..5), 3), 0usize..3, proptest::bool::weighted(0.3)).prop_map(|(nrust, extra, ncomp, depspec, others, linked)| {
         let rust: Vec<RustBp> = (0..nrust)
             .map(|i| RustBp {
-                id: if i % 2 == 0 { format!("acme/rust-{i}") } else { format!("rust{i}") },
+                // the third id has two slashes and the first id as a prefix: "acme/rust-0" / "acme/rust-0/extra"
+                id: if i == 2 { "acme/rust-0/extra".to_string() } else if i % 2 == 0 { format!("acme/rust-{i}") } else { format!("rust{i}") },
                 pkg: format!("bp-crate-{i}"),
                 extra_bins: (0..extra[i]).map(|k| format!("helper_{i}_{k}")).collect(),
                 dir: if i % 2 == 0 { format!("buildpacks/rust-{i}") } else { format!("nested/deeper/rust-{i}") },
@@ -89,10 +94,11 @@ fn workspace_strategy() -> impl Strategy<Value = Workspace> {
                         _ => CDep::Docker("docker://docker.io/heroku/procfile-cnb:2.0.0".to_string()),
                     })
                     .collect();
-                Composite { id: format!("acme/meta-{c}"), dir: format!("meta/composite-{c}"), deps }
+                // the second composite's id differs from the first Rust buildpack's only in letter case
+                Composite { id: if c == 1 { "acme/Rust-0".to_string() } else { format!("acme/meta-{c}") }, dir: format!("meta/composite-{c}"), deps }
             })
             .collect();
-        Workspace { rust, composites, others }
+        Workspace { rust, composites, others, linked }
     })
 }
 
@@ -101,7 +107,7 @@ fn invocation_strategy(nnodes: usize) -> impl Strategy<Value = Invocation> {
         prop_oneof![3 => Just(Cwd::Root), 4 => (0..nnodes.max(1)).prop_map(Cwd::Node), 1 => Just(Cwd::Elsewhere)],
         proptest::bool::weighted(0.2),
         prop_oneof![3 => Just(0u8), 1 => Just(1u8), 1 => Just(2u8)],
-        prop_oneof![2 => Just(Seed::Clean), 2 => Just(Seed::Foreign), 3 => any::<u16>().prop_map(Seed::Truncated), 2 => Just(Seed::StaleRevision)],
+        prop_oneof![2 => Just(Seed::Clean), 2 => Just(Seed::Foreign), 3 => any::<u16>().prop_map(Seed::Truncated), 2 => Just(Seed::StaleRevision), 2 => Just(Seed::StaleBinary)],
     )
         .prop_map(|(cwd, release, package_dir, seed)| Invocation { cwd, release, package_dir, seed })
 }
@@ -111,6 +117,7 @@ fn ws_json(w: &Workspace) -> Value {
         "rust": w.rust.iter().map(|r| json!({"id": r.id, "pkg": r.pkg, "extra_bins": r.extra_bins, "dir": r.dir})).collect::<Vec<_>>(),
         "composites": w.composites.iter().map(|c| json!({"id": c.id, "dir": c.dir, "deps": c.deps.iter().map(|d| match d { CDep::Libcnb(i) => json!({"libcnb": i}), CDep::RelPath(p) => json!({"rel": p}), CDep::Docker(u) => json!({"docker": u}) }).collect::<Vec<_>>()})).collect::<Vec<_>>(),
         "others": w.others,
+        "linked": w.linked,
     })
 }
 fn ws_from_json(v: &Value) -> Workspace {
@@ -122,18 +129,19 @@ fn ws_from_json(v: &Value) -> Workspace {
             deps: c["deps"].as_array().unwrap().iter().map(|d| if let Some(i) = d.get("libcnb") { CDep::Libcnb(i.as_u64().unwrap() as usize) } else if let Some(p) = d.get("rel") { CDep::RelPath(p.as_str().unwrap().into()) } else { CDep::Docker(d["docker"].as_str().unwrap().into()) }).collect(),
         }).collect(),
         others: v["others"].as_u64().unwrap() as usize,
+        linked: v["linked"].as_bool().unwrap_or(false),
     }
 }
 fn inv_json(i: &Invocation) -> Value {
     json!({"cwd": match &i.cwd { Cwd::Root => json!("root"), Cwd::Node(n) => json!({"node": n}), Cwd::Elsewhere => json!("elsewhere") }, "release": i.release, "package_dir": i.package_dir,
-        "seed": match &i.seed { Seed::Clean => json!("clean"), Seed::Foreign => json!("foreign"), Seed::Truncated(n) => json!({"truncated": n}), Seed::StaleRevision => json!("stale-revision") }})
+        "seed": match &i.seed { Seed::Clean => json!("clean"), Seed::Foreign => json!("foreign"), Seed::Truncated(n) => json!({"truncated": n}), Seed::StaleRevision => json!("stale-revision"), Seed::StaleBinary => json!("stale-binary") }})
 }
 fn inv_from_json(v: &Value) -> Invocation {
     Invocation {
         cwd: if v["cwd"] == "root" { Cwd::Root } else if v["cwd"] == "elsewhere" { Cwd::Elsewhere } else { Cwd::Node(v["cwd"]["node"].as_u64().unwrap() as usize) },
         release: v["release"].as_bool().unwrap(),
         package_dir: v["package_dir"].as_u64().unwrap() as u8,
-        seed: if v["seed"] == "clean" { Seed::Clean } else if v["seed"] == "foreign" { Seed::Foreign } else if v["seed"] == "stale-revision" { Seed::StaleRevision } else { Seed::Truncated(v["seed"]["truncated"].as_u64().unwrap() as u16) },
+        seed: if v["seed"] == "clean" { Seed::Clean } else if v["seed"] == "foreign" { Seed::Foreign } else if v["seed"] == "stale-revision" { Seed::StaleRevision } else if v["seed"] == "stale-binary" { Seed::StaleBinary } else { Seed::Truncated(v["seed"]["truncated"].as_u64().unwrap() as u16) },
     }
 }
 
@@ -183,6 +191,15 @@ fn write_workspace(root: &Path, w: &Workspace, revision: u32) {
     }
     for (ci, c) in w.composites.iter().enumerate() {
         let d = root.join(&c.dir);
+        if w.linked && ci + 1 == w.composites.len() {
+            // linked into the workspace from elsewhere
+            let real = root.parent().unwrap().join(format!("{}-external", root.file_name().unwrap().to_string_lossy())).join(format!("composite-{ci}"));
+            std::fs::create_dir_all(&real).unwrap();
+            std::fs::create_dir_all(d.parent().unwrap()).unwrap();
+            if std::fs::symlink_metadata(&d).is_err() {
+                std::os::unix::fs::symlink(&real, &d).unwrap();
+            }
+        }
         std::fs::create_dir_all(&d).unwrap();
         std::fs::write(d.join("buildpack.toml"), format!("api = \"0.10\"\n\n[buildpack]\nid = \"{}\"\nversion = \"1.{revision}.{ci}\"\n\n[[order]]\n[[order.group]]\nid = \"x/y\"\nversion = \"1.0.0\"\n", c.id)).unwrap();
         let mut p = String::from("[buildpack]\nuri = \".\"\n");
@@ -402,6 +419,35 @@ fn seed_output(root: &Path, w: &Workspace, inv: &Invocation, nodes: &BTreeSet<us
                     }
                 }
             }
+            Seed::StaleBinary => {
+                if let Some(s) = clean_snaps.get(id) {
+                    std::fs::create_dir_all(&out).unwrap();
+                    for (p, e) in s.iter() {
+                        if p.is_empty() {
+                            continue;
+                        }
+                        let path = out.join(fsutil::path_from_bytes(p));
+                        if let Some(par) = path.parent() {
+                            let _ = std::fs::create_dir_all(par);
+                        }
+                        let rel = fsutil::show_path(p);
+                        match e.kind {
+                            Kind::Dir => {
+                                let _ = std::fs::create_dir_all(&path);
+                            }
+                            Kind::File => {
+                                let old = rel.contains("bin/") && !rel.ends_with(".toml");
+                                let _ = std::fs::write(&path, if old { b"binary of an earlier revision".to_vec() } else { e.data.clone() });
+                            }
+                            Kind::Symlink => {
+                                let _ = std::os::unix::fs::symlink(fsutil::path_from_bytes(&e.data), &path);
+                            }
+                            _ => {}
+                        }
+                    }
+                    std::fs::write(out.join("left-over-from-earlier-run"), b"x").unwrap();
+                }
+            }
             Seed::StaleRevision => {
                 // output of a different revision of the workspace: different descriptor, an extra binary that no longer exists
                 std::fs::create_dir_all(out.join("bin")).unwrap();
@@ -435,6 +481,15 @@ fn check_workspace(scratch: &Path, w: &Workspace, invs: &[Invocation], idx: usiz
     let r = (|| -> Result<(), (Fail, Value)> {
         for inv in invs {
             out.evals += 1;
+            // the process's working directory is physical: from inside a linked directory the workspace is not reachable
+            let linked_node = if w.linked && !w.composites.is_empty() { Some(w.nnodes() - 1) } else { None };
+            let inv = &match &inv.cwd {
+                Cwd::Node(n) if Some(*n % w.nnodes()) == linked_node => Invocation { cwd: Cwd::Root, ..inv.clone() },
+                _ => inv.clone(),
+            };
+            if linked_node.is_some() {
+                out.classes.push("workspace-with-linked-buildpack-dir".into());
+            }
             let roots: Vec<usize> = match &inv.cwd {
                 Cwd::Root => all.clone(),
                 Cwd::Node(n) => vec![*n % w.nnodes()],
@@ -443,7 +498,7 @@ fn check_workspace(scratch: &Path, w: &Workspace, invs: &[Invocation], idx: usiz
             let inv = Invocation { cwd: match &inv.cwd { Cwd::Node(n) => Cwd::Node(*n % w.nnodes()), c => c.clone() }, ..inv.clone() };
             let expected = w.closure(&roots);
             out.classes.push(format!("cwd:{}", match inv.cwd { Cwd::Root => "workspace-root", Cwd::Node(n) if n < w.rust.len() => "libcnb.rs-buildpack", Cwd::Node(_) => "composite-buildpack", Cwd::Elsewhere => "elsewhere" }));
-            out.classes.push(format!("seed:{}", match inv.seed { Seed::Clean => "clean", Seed::Foreign => "foreign", Seed::Truncated(_) => "truncated-earlier-output", Seed::StaleRevision => "stale-revision" }));
+            out.classes.push(format!("seed:{}", match inv.seed { Seed::Clean => "clean", Seed::Foreign => "foreign", Seed::Truncated(_) => "truncated-earlier-output", Seed::StaleRevision => "stale-revision", Seed::StaleBinary => "stale-binaries-current-descriptors" }));
             if inv.release {
                 out.classes.push("profile:release".into());
             }
@@ -530,7 +585,7 @@ fn check_workspace(scratch: &Path, w: &Workspace, invs: &[Invocation], idx: usiz
 }
 
 pub fn run(ctx: &Ctx) {
-    ctx.set_rule("generated Cargo workspaces (1-3 dependency-free libcnb.rs buildpack crates with 1-3 binary targets whose main functions print distinct tokens, 0-3 composite buildpacks whose package.toml mixes libcnb:, relative-path and docker dependencies forming a DAG, 0-2 non-libcnb buildpack directories, ids with '/', nested locations, an .ignore file for output and target directories) packaged by the REAL cargo-libcnb binary built from /repo (--target x86_64-unknown-linux-gnu --no-cross-compile-assistance): from the workspace root, from each buildpack directory and from an unrelated directory; dev/--release; default, relative and absolute --package-dir; each over a clean output directory and over output directories pre-seeded with foreign files/dirs/symlinks, with a truncated earlier output (interrupted-run model: random subset of a real output deleted or cut in half) or with an output of a different workspace revision. Oracle: exit 0; for exactly the selected buildpacks and their transitive libcnb: dependencies a directory with byte-identical buildpack.toml, bin/build byte-identical to the compiled main target, bin/detect a symlink to build, every extra binary under .libcnb-cargo/additional-bin/<target name>, package.toml ('.' for libcnb.rs buildpacks; normalised descriptor decoded with Python tomllib for composites) and no other entry; stdout lines = the selected buildpacks' output directories; snapshot after a pre-seeded run == snapshot of the clean run; unrelated directory => non-zero exit, empty stdout, nothing written. Non-trivial: selection contains a composite with >= 1 libcnb: dependency AND the run starts from a pre-seeded output directory; distinct = hash of (workspace, invocation).");
+    ctx.set_rule("generated Cargo workspaces (1-3 dependency-free libcnb.rs buildpack crates with 1-3 binary targets whose main functions print distinct tokens, 0-3 composite buildpacks whose package.toml mixes libcnb:, relative-path and docker dependencies forming a DAG, 0-2 non-libcnb buildpack directories, ids with one or two '/' where one id is a '/'-prefix of another and two ids differ only in letter case, nested locations, in 3 of 10 workspaces one composite's directory being a symbolic link to a directory outside the workspace, an .ignore file for output and target directories) packaged by the REAL cargo-libcnb binary built from /repo (--target x86_64-unknown-linux-gnu --no-cross-compile-assistance): from the workspace root, from each buildpack directory and from an unrelated directory; dev/--release; default, relative and absolute --package-dir; each over a clean output directory and over output directories pre-seeded with foreign files/dirs/symlinks, with a truncated earlier output (interrupted-run model: random subset of a real output deleted or cut in half) with an output of a different workspace revision, or with a complete earlier output whose descriptors are current but whose binaries are old (always tried once from a composite's own directory). Oracle: exit 0; for exactly the selected buildpacks and their transitive libcnb: dependencies a directory with byte-identical buildpack.toml, bin/build byte-identical to the compiled main target, bin/detect a symlink to build, every extra binary under .libcnb-cargo/additional-bin/<target name>, package.toml ('.' for libcnb.rs buildpacks; normalised descriptor decoded with Python tomllib for composites) and no other entry; stdout lines = the selected buildpacks' output directories; snapshot after a pre-seeded run == snapshot of the clean run; unrelated directory => non-zero exit, empty stdout, nothing written. Non-trivial: selection contains a composite with >= 1 libcnb: dependency AND the run starts from a pre-seeded output directory; distinct = hash of (workspace, invocation).");
     ctx.assume("the musl target is not installed in this sandbox: the host gnu triple is passed explicitly, cross-compile assistance is not exercised");
     if !cargo_libcnb().exists() {
         ctx.inconclusive("cargo-libcnb has not been built (run ./setup.sh)");
@@ -545,6 +600,10 @@ pub fn run(ctx: &Ctx) {
         // always: the whole workspace from the root over a truncated earlier output, and one unrelated directory
         invs.insert(0, Invocation { cwd: Cwd::Root, release: false, package_dir: 0, seed: Seed::Truncated(i as u16) });
         invs.push(Invocation { cwd: Cwd::Elsewhere, release: false, package_dir: 0, seed: Seed::Clean });
+        if !w.composites.is_empty() {
+            // from a composite's own directory, over a complete earlier output with current descriptors and old binaries
+            invs.push(Invocation { cwd: Cwd::Node(w.rust.len()), release: false, package_dir: 0, seed: Seed::StaleBinary });
+        }
         jobs.push((i, w, invs));
     }
     for (_p, v) in ctx.regress_files() {
